@@ -11,6 +11,8 @@ import (
 	"math"
 	"net/http"
 	"net/http/httptest"
+	"os"
+	"path/filepath"
 	"reflect"
 	"regexp"
 	"runtime"
@@ -24,6 +26,7 @@ import (
 	"github.com/sanonone/kektordb/pkg/core/distance"
 	"github.com/sanonone/kektordb/pkg/core/hnsw"
 	"github.com/sanonone/kektordb/pkg/engine"
+	"gopkg.in/yaml.v3"
 )
 
 // ---------------------------------------------------------------------------------------
@@ -251,11 +254,90 @@ type c17Opts struct {
 	// operator-created indexes stored with half precision (the engine offers it for the euclidean metric only);
 	// the quantisation error (< 0.003 on these distances) is far inside the factor-2 margins of the design
 	FwF16, CacheF16 bool
+
+	// operator-created indexes that are "memory" indexes (MemoryConfig.Enabled): the engine then ranks search
+	// results by similarity x time-decay factor, so rank order and distance order differ as soon as the stored
+	// vectors have different ages. The property speaks of distances only: the reference ignores all of this.
+	FwMem, CacheMem *c17Mem
+
+	// the configuration reaches the gateway the way an operator's does: written as proxy.yaml and read back with
+	// LoadConfig (instead of a Config literal). OmitDefaults: a threshold that equals its documented default
+	// (firewall_threshold 0.25, cache_threshold 0.1) is left out of the file.
+	ViaYAML, OmitDefaults bool
+}
+
+// c17Mem describes the memory configuration of an operator-created index.
+type c17Mem struct {
+	HalfLife time.Duration // 0 = the engine's default (7 days)
+	Model    string        // "" = the engine's default (exponential)
+	Layers   bool          // per-layer half-lives as in hnsw.DefaultMemoryConfig
+}
+
+func (m *c17Mem) String() string {
+	if m == nil {
+		return "off"
+	}
+	return fmt.Sprintf("{halfLife=%s model=%q layers=%v}", m.HalfLife, m.Model, m.Layers)
+}
+
+func (m *c17Mem) cfg() *hnsw.MemoryConfig {
+	if m == nil {
+		return nil
+	}
+	c := &hnsw.MemoryConfig{Enabled: true, DecayModel: hnsw.DecayModel(m.Model), DecayHalfLife: hnsw.Duration(m.HalfLife)}
+	if m.Layers {
+		c.Layers = hnsw.DefaultMemoryConfig().Layers
+	}
+	return c
+}
+
+func c17PickMem(r *vkit.Rand) *c17Mem {
+	return &c17Mem{
+		HalfLife: vkit.Pick(r, []time.Duration{time.Minute, time.Hour, time.Hour, 0, 30 * 24 * time.Hour}),
+		Model:    vkit.Pick(r, []string{"", "exponential", "exponential", "linear", "step", "ebbinghaus"}),
+		Layers:   r.Chance(0.25),
+	}
+}
+
+// stamp gives a vector that enters a memory index a history: the engine's own bookkeeping fields (_created_at at
+// ages from "now" to decades in units of the half-life, or in the future; _pinned; memory_layer; access data).
+// None of it changes how far the vector is from a query. Returns a label for the operation log.
+func (m *c17Mem) stamp(r *vkit.Rand, meta map[string]any) string {
+	if m == nil {
+		return ""
+	}
+	hl := m.HalfLife
+	if hl == 0 {
+		hl = 7 * 24 * time.Hour
+	}
+	label := "age=now(unstamped)"
+	if k := vkit.Pick(r, []float64{-1, -1, 0.5, 3, 3, 30, 30, 400, -7}); k != -1 {
+		age := time.Duration(k * float64(hl))
+		if age > 20*365*24*time.Hour {
+			age = 20 * 365 * 24 * time.Hour
+		}
+		meta["_created_at"] = float64(time.Now().Add(-age).Unix())
+		label = fmt.Sprintf("age=%s(%g half-lives)", age, k)
+	}
+	if r.Chance(0.1) {
+		meta["_pinned"] = true
+		label += " pinned"
+	}
+	if m.Layers && r.Chance(0.6) {
+		l := vkit.Pick(r, []string{"episodic", "semantic", "procedural"})
+		meta["memory_layer"] = l
+		label += " layer=" + l
+	}
+	if r.Chance(0.15) {
+		meta["_access_count"] = float64(r.Range(1, 50))
+		label += " accessed"
+	}
+	return label
 }
 
 func (o c17Opts) String() string {
-	return fmt.Sprintf("fw=%v deny=%q fwMetric=%s Tf=%g fwIdx=%v cache=%v cacheMetric=%s cacheLang=%q Tc=%g ttl=%s rag=%v topk=%d ragThreshold=%g fwF16=%v cacheF16=%v",
-		o.FirewallEnabled, o.Deny, o.FwMetric, o.Tf, o.FwIndexCreated, o.CacheEnabled, o.CacheMetric, o.CacheLang, o.Tc, o.TTL, o.RAG, o.RAGTopK, o.RAGThreshold, o.FwF16, o.CacheF16)
+	return fmt.Sprintf("fw=%v deny=%q fwMetric=%s Tf=%g fwIdx=%v cache=%v cacheMetric=%s cacheLang=%q Tc=%g ttl=%s rag=%v topk=%d ragThreshold=%g fwF16=%v cacheF16=%v fwMem=%s cacheMem=%s yaml=%v omitDefaults=%v",
+		o.FirewallEnabled, o.Deny, o.FwMetric, o.Tf, o.FwIndexCreated, o.CacheEnabled, o.CacheMetric, o.CacheLang, o.Tc, o.TTL, o.RAG, o.RAGTopK, o.RAGThreshold, o.FwF16, o.CacheF16, o.FwMem, o.CacheMem, o.ViaYAML, o.OmitDefaults)
 }
 
 type c17Stored struct {
@@ -387,6 +469,9 @@ func c17NewRig(ctx *vkit.Ctx, cs *vkit.Case, o c17Opts) *c17Rig {
 	// unroutable LLM endpoints: the check never needs an LLM call (single-message RAG requests)
 	cfg.LLM.BaseURL = "http://127.0.0.1:1/v1"
 	cfg.FastLLM.BaseURL = "http://127.0.0.1:1/v1"
+	if o.ViaYAML {
+		cfg = g.viaYAML(cfg)
+	}
 	g.cfg = cfg
 	p, err := NewAIProxy(cfg, e)
 	if err != nil {
@@ -405,15 +490,70 @@ func c17NewRig(ctx *vkit.Ctx, cs *vkit.Case, o c17Opts) *c17Rig {
 		g.denyRe = append(g.denyRe, regexp.MustCompile("(?i)"+pat))
 	}
 	if o.FwIndexCreated {
-		g.must(e.VCreate(c17FwIndex, o.FwMetric, 16, 200, c17Prec(o.FwF16 && o.FwMetric == distance.Euclidean), "", nil, nil, nil), "create firewall index")
+		g.must(e.VCreate(c17FwIndex, o.FwMetric, 16, 200, c17Prec(o.FwF16 && o.FwMetric == distance.Euclidean), "", nil, nil, o.FwMem.cfg()), "create firewall index")
+		if o.FwMem != nil {
+			g.ctx.Count("world.firewall_index_is_memory_index", 1)
+		}
 	}
 	if o.CacheLang != "" {
-		g.must(e.VCreate(c17CacheIndex, o.CacheMetric, 16, 200, c17Prec(o.CacheF16 && o.CacheMetric == distance.Euclidean), o.CacheLang, nil, nil, nil), "pre-create cache index")
+		g.must(e.VCreate(c17CacheIndex, o.CacheMetric, 16, 200, c17Prec(o.CacheF16 && o.CacheMetric == distance.Euclidean), o.CacheLang, nil, nil, o.CacheMem.cfg()), "pre-create cache index")
+		if o.CacheMem != nil {
+			g.ctx.Count("world.cache_index_is_memory_index", 1)
+		}
 	}
 	if o.RAG {
 		g.must(e.VCreate(c17RAGIndex, distance.Cosine, 16, 200, distance.Float32, "", nil, nil, nil), "create rag index")
 	}
 	return g
+}
+
+// viaYAML writes the settings the property talks about (switches, deny list, index names, thresholds, TTL, RAG
+// switches) as a proxy.yaml, reads it back with the gateway's own LoadConfig and carries over what a file cannot
+// hold (the stub embedder) or what only keeps the check off the network (LLM endpoints, target URL).
+func (g *c17Rig) viaYAML(lit Config) Config {
+	o := g.o
+	doc := map[string]any{
+		"target_url":       lit.TargetURL,
+		"firewall_enabled": o.FirewallEnabled,
+		"firewall_index":   c17FwIndex,
+		"cache_enabled":    o.CacheEnabled,
+		"cache_index":      c17CacheIndex,
+		"cache_ttl":        o.TTL.String(),
+		"max_cache_items":  lit.MaxCacheItems,
+		"rag_enabled":      o.RAG,
+		"rag_index":        c17RAGIndex,
+		"rag_top_k":        o.RAGTopK,
+		"rag_threshold":    o.RAGThreshold,
+		"rag_use_graph":    false,
+		"rag_use_hybrid":   false,
+		"rag_use_hyde":     false,
+		"rag_use_adaptive": false,
+	}
+	if len(o.Deny) > 0 {
+		doc["firewall_deny_list"] = o.Deny
+	}
+	if !(o.OmitDefaults && o.Tf == 0.25) {
+		doc["firewall_threshold"] = o.Tf
+	}
+	if !(o.OmitDefaults && o.Tc == 0.1) {
+		doc["cache_threshold"] = o.Tc
+	}
+	b, err := yaml.Marshal(doc)
+	g.must(err, "marshal proxy.yaml")
+	path := filepath.Join(g.cs.SubDir(fmt.Sprintf("conf%d", c17RigSeq.Add(1))), "proxy.yaml")
+	g.must(os.WriteFile(path, b, 0o644), "write proxy.yaml")
+	g.cs.Op("proxy.yaml: %s", strings.ReplaceAll(strings.TrimSpace(string(b)), "\n", " | "))
+	cfg, err := LoadConfig(path)
+	if err != nil {
+		g.cs.Attach("proxy_yaml", string(b))
+		g.failf("configuration: LoadConfig refused a proxy.yaml that holds only documented keys: %v", err)
+	}
+	cfg.Embedder = lit.Embedder
+	cfg.CacheVacuumInterval = lit.CacheVacuumInterval
+	cfg.LLM.BaseURL = lit.LLM.BaseURL
+	cfg.FastLLM.BaseURL = lit.FastLLM.BaseURL
+	g.ctx.Count("world.configured_via_proxy_yaml", 1)
+	return cfg
 }
 
 type c17DownLLM struct{ g *c17Rig }
@@ -511,8 +651,9 @@ func (g *c17Rig) addForbidden(v []float32) {
 }
 
 func (g *c17Rig) addForbiddenAs(id string, v []float32) {
-	g.cs.Op("firewall index += %s", id)
-	g.must(g.eng.VAdd(c17FwIndex, id, v, map[string]any{"text": "forbidden prompt " + id}), "add forbidden prompt")
+	meta := map[string]any{"text": "forbidden prompt " + id}
+	g.cs.Op("firewall index += %s %s", id, g.o.FwMem.stamp(g.cs.R, meta))
+	g.must(g.eng.VAdd(c17FwIndex, id, v, meta), "add forbidden prompt")
 	g.forbidden = append(g.forbidden, c17Stored{ID: id, Vec: v})
 }
 
@@ -576,6 +717,12 @@ func (g *c17Rig) plantAged(vec []float32, body string, age time.Duration, source
 		"response":   body,
 		"created_at": float64(created.Unix()),
 		"sources":    strings.Join(sources, " "),
+	}
+	if g.o.CacheMem != nil && g.o.CacheLang != "" {
+		// the cache index is a memory index: the entry also carries the engine's bookkeeping (its own notion of age)
+		if l := g.o.CacheMem.stamp(g.cs.R, meta); len(g.entries) < 40 {
+			g.cs.Op("  engine bookkeeping of %s: %s", id, l)
+		}
 	}
 	g.must(g.eng.VAdd(c17CacheIndex, id, vec, meta), "plant cache entry")
 	en := &c17Entry{ID: id, Vec: vec, Body: body, CreatedLo: created, CreatedHi: created, Sources: sources, Stored: sources, Planted: true}
@@ -943,6 +1090,9 @@ func (g *c17Rig) judge(q *c17Req) (c17Verdict, c17Resp) {
 			annMissed = true
 			break
 		}
+		if (got.UpDelta != 0 || got.Status < 400 || got.Status > 499) && want.Why != "pattern" {
+			g.cs.Attach("firewall_index_at_miss", g.fwDiag(q))
+		}
 		if got.UpDelta != 0 {
 			g.failf("firewall: request that must be refused (%s) reached the upstream model (%d upstream request(s), status %d): %s", want.Why, got.UpDelta, got.Status, desc)
 		}
@@ -1032,6 +1182,7 @@ func (g *c17Rig) judge(q *c17Req) (c17Verdict, c17Resp) {
 					if s, ok := d.Metadata["sources"].(string); ok {
 						en.Stored = strings.Fields(s)
 					}
+					g.createdAtInBracket(en.ID, d.Metadata["created_at"], tBefore, tAfter, desc)
 				}
 			}
 			en.Sources = en.Stored
@@ -1072,6 +1223,48 @@ func (g *c17Rig) judge(q *c17Req) (c17Verdict, c17Resp) {
 		want.Outcome, want.Why = "ann_miss", outcome
 	}
 	return want, got
+}
+
+// createdAtInBracket is the read-out behind "younger than the TTL" for an answer the gateway stored itself: the
+// creation time the entry carries — Unix seconds, the format of the cache index (properties.jsonl: "cache entries
+// carry response, created_at and space-separated sources"; the format the lookup reads and the check plants
+// entries in) — must lie between the two harness clock samples taken around the request that produced it (one
+// second of slack on each side for the truncation to whole seconds). An entry stamped outside that bracket is
+// judged against the TTL as if it had been answered at another time: it expires early, late or never.
+func (g *c17Rig) createdAtInBracket(id string, v any, tBefore, tAfter time.Time, desc string) {
+	if g.o.TTL <= 0 {
+		return
+	}
+	g.ctx.Count("cache.created_at_of_saved_entry_read", 1)
+	f, ok := v.(float64)
+	if !ok {
+		g.failf("cache: the entry %s the gateway stored for this answer carries no usable creation time (created_at = %#v): it can never be judged against the TTL of %s: %s", id, v, g.o.TTL, desc)
+	}
+	lo, hi := tBefore.Unix()-1, tAfter.Unix()+1
+	if sec := int64(f); sec < lo || sec > hi {
+		g.failf("cache: the entry %s the gateway stored for this answer is stamped created_at = %.0f, read as Unix seconds %s; the request was made between %s and %s on the same clock, so the entry's age is off by %s and a TTL of %s is applied to the wrong age: %s",
+			id, f, time.Unix(sec, 0).UTC().Format(time.RFC3339), tBefore.UTC().Format(time.RFC3339), tAfter.UTC().Format(time.RFC3339), time.Unix(sec, 0).Sub(tBefore).Round(time.Second), g.o.TTL, desc)
+	}
+}
+
+// waitAllExpired sleeps until the harness clock says of every live entry that it is decisively older than the
+// TTL (ageClass -1). Waiting longer — a loaded host — only makes the entries older: no verdict depends on how
+// long this takes.
+func (g *c17Rig) waitAllExpired() {
+	g.cs.Op("wait until every cache entry is older than the TTL of %s (+ %s margin)", g.o.TTL, c17ClockMargin+time.Second)
+	for {
+		now, all := time.Now(), true
+		for _, en := range g.entries {
+			if !en.Removed && g.ageClass(en, now) != -1 {
+				all = false
+			}
+		}
+		if all {
+			return
+		}
+		time.Sleep(100 * time.Millisecond)
+		g.ctx.Touch()
+	}
 }
 
 // c17ExhaustiveBelow: up to 2*M = 32 vectors the engine's search is exhaustive (property C07); above that it is
@@ -1275,6 +1468,30 @@ func (g *c17Rig) invalidate(doc string) (cited, kept int) {
 		}
 	}
 	return cited, kept
+}
+
+// fwDiag describes what the engine's own search on the forbidden-prompt index returns for q, in the engine's rank
+// order, next to the true distance of every returned prompt (witness material for a prompt that was not refused:
+// on a memory index the best-ranked prompt need not be the nearest one).
+func (g *c17Rig) fwDiag(q *c17Req) map[string]any {
+	out := map[string]any{"firewall_index_memory_config": g.o.FwMem.String()}
+	res, err := g.eng.VSearchWithScores(c17FwIndex, q.Vec, 10)
+	out["engine_top10_err"] = fmt.Sprint(err)
+	var l []string
+	for rank, r := range res {
+		line := fmt.Sprintf("rank %d: %s score=%.6g", rank, r.ID, r.Score)
+		if r.Breakdown != nil {
+			line += fmt.Sprintf(" similarity=%.6g decay_factor=%.6g", r.Breakdown.Similarity, r.Breakdown.DecayFactor)
+		}
+		for _, f := range g.forbidden {
+			if f.ID == r.ID && !f.Deleted {
+				line += fmt.Sprintf(" true_distance=%.6g (threshold %g)", c17Dist(g.o.FwMetric, q.Vec, f.Vec), g.o.Tf)
+			}
+		}
+		l = append(l, line)
+	}
+	out["engine_top10_in_rank_order"] = l
+	return out
 }
 
 // cacheDiag describes what the engine's own search on the cache index returns for q and the
